@@ -208,8 +208,23 @@ func c11Canon(g *model.Gen, p int) string {
 	return model.P2Name
 }
 
+// c11Literal is a claims object as a caller writing a struct literal gets it:
+// only the canonical name set, every claim (and the component container) nil.
+func c11Literal(p int, canon string) psatoken.IClaims {
+	switch canon {
+	case extprof.ExtP1Name:
+		return &extprof.ExtP1Claims{P1Claims: psatoken.P1Claims{CanonicalProfile: canon}}
+	case extprof.ExtP2Name:
+		return &extprof.ExtP2Claims{P2Claims: psatoken.P2Claims{CanonicalProfile: canon}}
+	}
+	if p == 1 {
+		return &psatoken.P1Claims{CanonicalProfile: canon}
+	}
+	return &psatoken.P2Claims{CanonicalProfile: canon}
+}
+
 func runC11(c *mon.Ctx) {
-	c.Rule("histories = random sequences of 1..40 setter calls (all 9 setters of both profiles, values drawn from the C01 classes incl. every byte length 0..80, valid and invalid interleaved, repeats) on a NewClaims object of either base profile or (a third of the histories) of the registered extension profile embedding it; after EVERY call the full observation (Validate + 10 getters + component getters) is compared with a last-successful-write-wins model, a refused call must also leave both encodings byte-identical, the setter must accept iff the reference predicate accepts; at the end the same final values are replayed once each in shuffled order on a fresh object and both encodings must be byte-identical. Also single calls: every setter x every length 0..80. distinct_nontrivial = distinct (profile, setter, value-class, accepted?) + distinct history signatures")
+	c.Rule("histories = random sequences of 1..40 setter calls (all 9 setters of both profiles, values drawn from the C01 classes incl. every byte length 0..80, valid and invalid interleaved, repeats) on a NewClaims object (or, one history in five, a zero-value struct literal without container) of either base profile or (a third of the histories) of the registered extension profile embedding it; after EVERY call the full observation (Validate + 10 getters + component getters) is compared with a last-successful-write-wins model, a refused call must also leave both encodings byte-identical, the setter must accept iff the reference predicate accepts; at the end the same final values are replayed once each in shuffled order on a fresh object and both encodings must be byte-identical. Also single calls: every setter x every length 0..80. distinct_nontrivial = distinct (profile, setter, value-class, accepted?) + distinct history signatures")
 	g := model.NewGen(c.Seed*7001 + int64(c.Shard))
 	nh := c.N(30000, 1500000)
 	if err := extprof.Register(extprof.ExtP2Name, extprof.ExtP1Name); err != nil {
@@ -221,12 +236,23 @@ func runC11(c *mon.Ctx) {
 		length := 1 + g.R.Intn(40)
 		canon := c11Canon(g, p)
 		c.Count("histories-on:" + canon)
-		cl, err := psatoken.NewClaims(canon)
-		if err != nil {
-			c.Violation("C11/NewClaims", "NewClaims failed: "+err.Error(), nil)
-			return
+		// one history in five starts from a zero-value struct literal (no
+		// profile claim, no component container) instead of NewClaims
+		literal := g.R.Intn(5) == 0
+		var cl psatoken.IClaims
+		var a *model.Claims
+		if literal {
+			c.Count("histories-from-struct-literal")
+			cl, a = c11Literal(p, canon), &model.Claims{P: p, Canon: canon}
+		} else {
+			var err error
+			cl, err = psatoken.NewClaims(canon)
+			if err != nil {
+				c.Violation("C11/NewClaims", "NewClaims failed: "+err.Error(), nil)
+				return
+			}
+			a = freshAbstract(p, canon)
 		}
-		a := freshAbstract(p, canon)
 		var trace []string
 		var finals = map[string]setOp{}
 		hsig := fmt.Sprintf("P%d", p)
@@ -299,6 +325,9 @@ func runC11(c *mon.Ctx) {
 		}
 		// order / repetition independence of the encoding
 		b, _ := psatoken.NewClaims(canon)
+		if literal {
+			b = c11Literal(p, canon)
+		}
 		var names []string
 		for n := range finals {
 			names = append(names, n)
@@ -369,6 +398,7 @@ func runC11(c *mon.Ctx) {
 	}
 	c.Floor("histories-on:"+extprof.ExtP1Name, 200)
 	c.Floor("histories-on:"+extprof.ExtP2Name, 200)
+	c.Floor("histories-from-struct-literal", 200)
 	c.Floor("accepted", 1000)
 	c.Floor("refused", 1000)
 	c.Floor("complete-valid-states", 100)
